@@ -293,13 +293,24 @@ func genC08(t *rapid.T) *Scenario {
 	sc := &Scenario{Prop: "C08", Stage: "unbound", Caps: []int{rapid.IntRange(0, 4).Draw(t, "cap")}}
 	sc.Mode = rapid.SampledFrom([]string{"cancel", "cancel", "close"}).Draw(t, "end")
 	n := rapid.IntRange(0, 40).Draw(t, "scriptLen")
-	kinds := []string{"send", "send", "send", "send", "burst", "burst", "burst", "recv", "recv", "recv", "recv", "drain", "drain"}
+	kinds := []string{"send", "send", "send", "send", "burst", "burst", "burst", "recv", "recv", "recv", "recv", "drain", "drain", "batch", "batch"}
 	for j := 0; j < n; j++ {
 		m := Move{K: rapid.SampledFrom(kinds).Draw(t, "k")}
 		if m.K == "burst" {
 			m.M = rapid.IntRange(1, 8).Draw(t, "m")
 			if rapid.IntRange(0, 19).Draw(t, "big") == 0 {
 				m.M = rapid.IntRange(50, 200).Draw(t, "mbig")
+			}
+		}
+		if m.K == "batch" {
+			// a receive and a send without an intervening quiescence: the pump wakes up with several arms ready
+			k := rapid.IntRange(2, 4).Draw(t, "nsub")
+			for i := 0; i < k; i++ {
+				sub := Move{K: rapid.SampledFrom([]string{"recv", "recv", "send", "burst"}).Draw(t, "sk")}
+				if sub.K == "burst" {
+					sub.M = rapid.IntRange(1, 4).Draw(t, "sm")
+				}
+				m.Sub = append(m.Sub, sub)
 			}
 		}
 		sc.Script = append(sc.Script, m)
@@ -353,6 +364,7 @@ func genC11(t *rapid.T) *Scenario {
 	}
 	if rapid.IntRange(0, 2).Draw(t, "cancelMid") == 0 {
 		sc.T.CancelAt = rapid.IntRange(1, 30).Draw(t, "cancelAt")
+		sc.T.StopAtCancel = rapid.Bool().Draw(t, "stopAtCancel")
 	}
 	return sc
 }
